@@ -178,6 +178,7 @@ def run_op(E, op, st):
     elif k == 'raw_update': E.db.execute('update raw_t set b = $b where a = $a', {'a': op[1], 'b': op[2]}, {})
     elif k == 'raw_delete': E.db.execute('delete from raw_t where a = $a', {'a': op[1]}, {})
     elif k == 'db_insert': E.db.insert('raw_t', a=op[1], b=op[2])
+    elif k == 'db_insert_ret': E.db.insert('raw_t', returning='a', a=op[1], b=op[2])      # the returning_id branch of Database.insert
     elif k == 'select': E.select(t for t in E.T)[:]
     elif k == 'raw_select': E.db.select('* from raw_t')
     elif k == 'for_update': E.T.get_for_update(id=op[1])
@@ -253,6 +254,7 @@ FIXED_PROGRAMS = [
     ('bulk_then_dup', 'optimistic', [['bulk_delete', 3], ['raw_insert', 1, 99]]),
     ('db_insert_first', 'optimistic', [['db_insert', 40, 1], ['create_T', 73]]),
     ('db_insert_only', 'optimistic', [['db_insert', 41, 1]]),
+    ('db_insert_ret_first', 'optimistic', [['db_insert_ret', 42, 1], ['update_T', 1, 74]]),
     ('read_only', 'optimistic', [['select'], ['raw_select']]),
     ('empty', 'immediate', []),
 ]
